@@ -49,9 +49,10 @@ type (
 	}
 	SOld   struct{ X SExpr }
 	SQuant struct {
-		Forall bool
-		Vars   []SVar
-		Body   SExpr
+		Forall   bool
+		Vars     []SVar
+		Body     SExpr
+		Triggers [][]SExpr
 	}
 	SDeref struct{ X SExpr }
 )
@@ -249,9 +250,22 @@ func (p *sparser) expr() SExpr {
 				break
 			}
 		}
+		// optional triggers: forall p int {bigv[p]} :: body   (several {..} = alternative patterns)
+		var trig [][]SExpr
+		for p.accept("{") {
+			var ts []SExpr
+			for {
+				ts = append(ts, p.expr())
+				if !p.accept(",") {
+					break
+				}
+			}
+			p.expect("}")
+			trig = append(trig, ts)
+		}
 		p.expect("::")
 		body := p.expr()
-		return &SQuant{Forall: t.text == "forall", Vars: vars, Body: body}
+		return &SQuant{Forall: t.text == "forall", Vars: vars, Body: body, Triggers: trig}
 	}
 	return p.iff()
 }
@@ -500,6 +514,7 @@ type Contract struct {
 	Bounded     int // unroll bound for bounded mode (0 = none)
 	Asserts     map[string]*Clause
 	Lemmas      []string // lemma instantiations "use" at entry
+	Reveal      []string // opaque pure functions whose definitions are revealed
 }
 
 type PureFunc struct {
@@ -507,6 +522,7 @@ type PureFunc struct {
 	Params []SVar
 	Result string
 	Body   SExpr // nil => uninterpreted
+	Def    SExpr // opaque definition (revealed on demand)
 	File   string
 	Pkg    string // package dir for type resolution
 }
@@ -531,6 +547,7 @@ type Lemma struct {
 	Requires []*Clause
 	Ensures  []*Clause
 	Induct   string
+	Reveal   []string
 	Pkg      string
 	File     string
 	Props    []string
@@ -801,6 +818,15 @@ func (db *SpecDB) loadSpecFile(path, pkgRel string) error {
 				return fail(i, fmt.Errorf("use outside func"))
 			}
 			cur.Lemmas = append(cur.Lemmas, rest)
+		case "reveal":
+			names := strings.FieldsFunc(rest, func(r rune) bool { return r == ',' || r == ' ' })
+			if curLemma != nil {
+				curLemma.Reveal = append(curLemma.Reveal, names...)
+			} else if cur != nil {
+				cur.Reveal = append(cur.Reveal, names...)
+			} else {
+				return fail(i, fmt.Errorf("reveal outside func/lemma"))
+			}
 		case "sort":
 			db.Sorts = append(db.Sorts, rest)
 		case "ghost":
@@ -828,8 +854,13 @@ func (db *SpecDB) loadSpecFile(path, pkgRel string) error {
 			tail := strings.TrimSpace(rest[cp+1:])
 			res := tail
 			var body SExpr
+			opaque := false
 			if j := strings.Index(tail, "="); j >= 0 && !strings.HasPrefix(tail[j:], "==") {
 				res = strings.TrimSpace(tail[:j])
+				if strings.HasSuffix(res, " opaque") {
+					opaque = true
+					res = strings.TrimSpace(strings.TrimSuffix(res, " opaque"))
+				}
 				body, err = parseSpecExpr(tail[j+1:])
 				if err != nil {
 					return fail(i, err)
@@ -838,7 +869,13 @@ func (db *SpecDB) loadSpecFile(path, pkgRel string) error {
 			if _, dup := db.Pures[name]; dup {
 				return fail(i, fmt.Errorf("duplicate pure %s", name))
 			}
-			db.Pures[name] = &PureFunc{Name: name, Params: ps, Result: res, Body: body, File: path, Pkg: pkgRel}
+			pf := &PureFunc{Name: name, Params: ps, Result: res, Body: body, File: path, Pkg: pkgRel}
+			if opaque {
+				// opaque: used as an uninterpreted function; its definition becomes an axiom
+				// only in contracts / lemmas that say `reveal name`
+				pf.Def, pf.Body = body, nil
+			}
+			db.Pures[name] = pf
 			cur, curLemma = nil, nil
 		case "axiom":
 			name := ""
